@@ -162,3 +162,31 @@ def run(ctx, fx, file, field_key, rule="R-TAINT-S"):
     ctx.instance(rule + ".sinks", nsinks)
     ctx.instance(rule + ".sentinels", len(sentinels))
     return sentinels, sanitizers
+
+
+def completeness(ctx, fx, file, field_key, sentinels, name_rx=r"Iterator>::next$|::iter$|::keys$|::values$|::drain$|::retain$",
+                 rule="R-TAINT-S.complete"):
+    """enumeration code that inspects the occupancy marker must exclude EVERY sentinel: a function that
+    yields entries and compares the marker with only some of the sentinels also yields deleted/empty slots"""
+    import re
+    rx = re.compile(name_rx)
+    n = 0
+    for fid in fx.fn_ids(file):
+        if "::tests::" in fid or not rx.search(fid):
+            continue
+        fn = Fn(fx.raw(fid))
+        seen = discover_sentinels([fn], field_key)
+        if not seen:
+            continue
+        n += 1
+        missing = sorted(sentinels - seen)
+        ok = not missing
+        ctx.obligation(rule, fid, "excludes all sentinels", ok,
+                       sample={"fn": fid, "compares_marker_with": sorted(seen), "sentinels": sorted(sentinels)})
+        if not ok:
+            ctx.violation(rule, fid, "marker not compared with %s" % missing,
+                          "this enumeration checks %s only against %s; slots marked %s (deleted/empty) are yielded as live entries"
+                          % (field_key.rsplit("::", 2)[-2] + "." + field_key.rsplit("::", 1)[-1], sorted(seen), missing),
+                          fn.file, fn.line)
+    ctx.instance(rule + ".enumerators", n)
+    return n
